@@ -41,11 +41,15 @@ type c14Question struct {
 type c14Caller struct {
 	Q       int `json:"q"`
 	DelayUs int `json:"delay_us"`
+	// moving mode only (c14mov.go): this caller's own logical "now" in milliseconds relative to the
+	// question's end, and the wave it belongs to (a wave starts when every caller of the previous one has returned)
+	NowOffMs int64 `json:"now_off_ms,omitempty"`
+	Wave     int   `json:"wave,omitempty"`
 }
 
 type c14Trial struct {
 	ID          int           `json:"id"`
-	Mode        string        `json:"mode"` // mixed | saturate | rangefail | corner
+	Mode        string        `json:"mode"` // mixed | saturate | rangefail | corner | moving
 	Concurrency int           `json:"concurrency"`
 	Servers     int           `json:"servers"`
 	RateLimit   int           `json:"rate_limit"`
@@ -134,6 +138,7 @@ type c14Stats struct {
 	SharedRepeated int            `json:"shared_repeated"` // corner mode: slice keys requested more than once
 	Slices         int            `json:"slices"`
 	WallUs         int64          `json:"wall_us"`
+	Moving         *c14MovStats   `json:"moving,omitempty"` // moving mode only
 }
 
 type c14Observed struct {
@@ -162,7 +167,7 @@ func c14ParseHelp(h string) map[string]string {
 }
 
 // c14Ask performs one question through the real FailoverGroup and decodes the identity carried by the value.
-func c14Ask(fg *promapi.FailoverGroup, q c14Question, rec *c14Call) {
+func c14Ask(fg *promapi.FailoverGroup, q c14Question, nowOffMs int64, rec *c14Call) {
 	ctx := context.Background()
 	switch q.Kind {
 	case "query":
@@ -183,7 +188,7 @@ func c14Ask(fg *promapi.FailoverGroup, q c14Question, rec *c14Call) {
 			rec.Foreign = "value of query " + l.Get("q")
 		}
 	case "range":
-		r := q.rng()
+		r := q.rngAt(nowOffMs)
 		res, err := fg.RangeQuery(ctx, q.Expr, r)
 		if err != nil {
 			rec.Err = err.Error()
@@ -288,18 +293,41 @@ func c14RunTrial(t c14Trial) (out c14Outcome) {
 	calls := make([]c14Call, len(t.Callers))
 	var wg sync.WaitGroup
 	startCh := make(chan struct{})
+	// waves (moving mode; everywhere else all callers are wave 0): wave w+1 is released when every caller of wave w has returned
+	nWaves := 1
+	for _, c := range t.Callers {
+		if c.Wave+1 > nWaves {
+			nWaves = c.Wave + 1
+		}
+	}
+	waveWG := make([]sync.WaitGroup, nWaves)
+	waveCh := make([]chan struct{}, nWaves)
+	for w := range waveCh {
+		waveCh[w] = make(chan struct{})
+	}
+	for _, c := range t.Callers {
+		waveWG[c.Wave].Add(1)
+	}
+	go func() {
+		<-startCh
+		for w := 0; w < nWaves; w++ {
+			close(waveCh[w])
+			waveWG[w].Wait()
+		}
+	}()
 	for i, c := range t.Callers {
 		calls[i] = c14Call{Caller: i, Q: c.Q}
 		wg.Add(1)
 		go func(i int, c c14Caller) {
 			defer wg.Done()
-			<-startCh
+			defer waveWG[c.Wave].Done()
+			<-waveCh[c.Wave]
 			if c.DelayUs > 0 {
 				time.Sleep(time.Duration(c.DelayUs) * time.Microsecond)
 			}
 			rec := c14Call{Caller: i, Q: c.Q}
 			rec.Call = stamp()
-			c14Ask(fg, t.Questions[c.Q], &rec)
+			c14Ask(fg, t.Questions[c.Q], c.NowOffMs, &rec)
 			rec.Return = stamp()
 			rec.Done = true
 			calls[i] = rec // each goroutine writes its own element; read after wg.Wait
@@ -520,6 +548,12 @@ func c14CheckTrial(t c14Trial, obs c14Observed, out *c14Outcome) {
 			viol("inflight-exceeds-concurrency",
 				fmt.Sprintf("%d requests in flight at once on upstream %s, configured concurrency is %d (e.g. %s [%d,%d]ns and %s [%d,%d]ns)", d, nm, t.Concurrency, w1.key, w1.a, w1.b, w2.key, w2.a, w2.b))
 		}
+	}
+
+	// ---- moving-end scenario: its own reuse monitor (c14mov.go) ----
+	if t.Mode == "moving" {
+		c14CheckMoving(t, obs, out, viol)
+		return
 	}
 
 	// ---- corner scenario: only the shared-slice monitor (plus value identity) ----
